@@ -248,6 +248,32 @@ theorem quadratic_spectral (r w1 c0 s0 c1 s1 : Rat) (u : GQ) (hu : u * GQ.conj u
   unfold quadP00 quadP11 quadPpm quadraticGenerator quadratic zero4 id4
   refine ⟨?_, ?_, ?_, ?_, ?_, ?_⟩ <;> mat_unfold <;> mat_entries
 
+/-- Cubic gate, GENERAL weights: `qubit_generator_matrix` is the Jordan–Wigner image (through the Spec, three
+modes) of `w0·G₀ + w1·G₁ + w2·G₂ + h.c.` for the `fermion_generator_components` extracted from the live
+source (`a†₀a₀a†₁a₂`, `−a†₀a†₁a₁a₂`, `a†₀a₁a†₂a₂`). -/
+theorem cubic_generator_is_jw (w0 w1 w2 : GQ) :
+    let half := Mat.add (Mat.add (Mat.smul w0 (opMat3 (OFV.Generated.C14.cubicComponents.getD 0 [])))
+      (Mat.smul w1 (opMat3 (OFV.Generated.C14.cubicComponents.getD 1 []))))
+      (Mat.smul w2 (opMat3 (OFV.Generated.C14.cubicComponents.getD 2 [])))
+    cubicGenerator w0 w1 w2 = Mat.add half (Mat.dagger half) := by
+  rw [cubicComp0, cubicComp1, cubicComp2, cubicGenerator_lit]
+  unfold e65 e63 e53
+  mat_unfold
+  mat_entries
+
+/-- Eigen-structure of the cubic gate for general weights, without eigenvalues: the 3×3 block `M` that
+`_eigen_components` hands to `numpy.linalg.eigh` is Hermitian and satisfies its characteristic equation
+`M³ = (|w0|²+|w1|²+|w2|²)·M + 2Re(w0 w̄1 w2)·1`, so `exp(−itM)` is a polynomial of degree ≤ 2 in `M` with
+coefficients determined by the three real roots of `λ³ − sλ − d` (the exponents of the eigen-components). -/
+theorem cubic_block_characteristic (w0 w1 w2 : GQ) :
+    Mat.dagger (cubicBlock w0 w1 w2) = cubicBlock w0 w1 w2 ∧
+    Mat.mul (cubicBlock w0 w1 w2) (Mat.mul (cubicBlock w0 w1 w2) (cubicBlock w0 w1 w2)) =
+      Mat.add (Mat.smul (GQ.ofRat (w0.normSq + w1.normSq + w2.normSq)) (cubicBlock w0 w1 w2))
+        (Mat.smul (w0 * GQ.conj w1 * w2 + GQ.conj (w0 * GQ.conj w1 * w2)) [[1, 0, 0], [0, 1, 0], [0, 0, 1]]) := by
+  unfold cubicBlock
+  refine ⟨?_, ?_⟩ <;> mat_unfold <;> mat_entries
+  all_goals (simp [GQ.normSq]; try ring)
+
 /-- non-vacuity: the hypotheses are satisfiable by non-trivial rational angles -/
 example : (3/5 : Rat) * (3/5) + (4/5) * (4/5) = 1 := by norm_num
 example : (⟨3/5, 4/5⟩ : GQ) * GQ.conj ⟨3/5, 4/5⟩ = 1 := by decide +kernel
